@@ -1,8 +1,8 @@
 /* C11 (ring part): an overwrite ring always keeps the newest chunks, intact */
 #include "rb_common.h"
 
-static const size_t SIZES[] = { 4083, 100, 5000 };
-#define NSIZES 3
+static const size_t SIZES[] = { 4083, 100, 5000, 9000 };
+#define NSIZES 4
 #define MAXH 32
 static struct { size_t len; int pat; uint32_t seed; } Hh[MAXH];
 static int nh, depth, allpos;
@@ -104,7 +104,7 @@ int main(int argc, char **argv)
 	static struct vp_harness h = {
 		.property = "C11", .name = "c11_rb_overwrite", .level = "model_checking",
 		.run = run, .init = init, .batch = 2000, .private_shm = 1,
-		.rule = "real overwrite rings (S in {100,4083,5000}, with/without semaphore, clean or pre-filled with words equal to the chunk marker), "
+		.rule = "real overwrite rings (S in {100,4083,5000,9000}, with/without semaphore, clean or pre-filled with words equal to the chunk marker), "
 			"start positions around the wrap point (or every word), every sequence of <= depth writes with lengths {1,7,S/3,S/2,S-16,S} and two "
 			"payloads; after EVERY write the ring image is saved, drained with qb_rb_chunk_read, compared with the newest-k suffix of the write "
 			"history (k >= 1 and k >= what fits in S at 16 bytes overhead), and restored; states = distinct ring images, distinct = k values",
